@@ -138,8 +138,9 @@ PROPS = {
     "C15": {
         "groups": [
             {"pkg": "glow", "tags": "verif", "harness": "^verifH_C15_"},
+            {"pkg": "server", "tags": "verif,test", "harness": "^verifH_C15_", "unwind": 8},
         ],
-        "bounds": {},
+        "bounds": {"weekly statistics record": "device count 0, input length 0..80 (valid: 72)"},
         "outside": [],
     },
     "C20": {
@@ -153,4 +154,7 @@ PROPS = {
     },
 }
 
-NOT_APPLICABLE = {}
+NOT_APPLICABLE = {
+    "C08": "no sound end-to-end check could be completed with this technique in the time available: the claim composes the client's 4032-slot resend loop with the server's bitfield loop and acceptance rule; the server-side reply-layout harness (4032 merged iterations + symbolic-length appends) did not finish within the solving budget, so only the parts are decided elsewhere (retransmission identity for int32 readings: C09; use of the reply by the sync round: C11; acceptance and idempotence at the server: C01/C02). See DESIGN.md section 0.3.",
+    "C14": "not built: the archive claim needs a schedule query over ghost-disk events with models of archive/zip and io.Copy that the engine does not have; rate limiting is decided by C19, key-file handling at start-up by C05. See DESIGN.md section 0.3.",
+}
